@@ -2,6 +2,7 @@ package c13
 
 import (
 	"fmt"
+	"regexp"
 	"strings"
 	"time"
 
@@ -114,6 +115,21 @@ func buildTable(g gen, name string, nullable bool, nRows int) *table {
 		t.types[col.name] = typ
 		fields = append(fields, physical.SchemaField{Name: col.name, Type: typ})
 	}
+	// union twins u_<col> of the scalar columns: declared T | [Int] (| NULL), holding only T (or
+	// NULL) values. A function applied to one only MAY match its parameter type, so the typechecker
+	// takes its second pass (runtime type assertion) - where nullability must survive for the strict
+	// NULL short-circuit to be installed.
+	for _, col := range columns {
+		if !isScalar(col.typ) {
+			continue
+		}
+		typ := octosql.TypeSum(col.typ, listOf(octosql.Int))
+		if nullable {
+			typ = octosql.TypeSum(typ, octosql.Null)
+		}
+		t.types["u_"+col.name] = typ
+		fields = append(fields, physical.SchemaField{Name: "u_" + col.name, Type: typ})
+	}
 	var evs []nodeh.Event
 	for i := 0; i < nRows; i++ {
 		row := map[string]V{"id": vInt(int64(i))}
@@ -126,11 +142,63 @@ func buildTable(g gen, name string, nullable bool, nRows int) *table {
 			row[col.name] = v
 			vals = append(vals, v)
 		}
+		for _, col := range columns {
+			if !isScalar(col.typ) {
+				continue
+			}
+			v := col.gen(g)
+			if nullable && g.pick(3) == 0 {
+				v = vNull()
+			}
+			row["u_"+col.name] = v
+			vals = append(vals, v)
+		}
 		t.rows = append(t.rows, row)
 		evs = append(evs, nodeh.Rec(vals, false, time.Time{}))
 	}
 	t.db = &nodeh.Table{Fields: fields, TimeField: -1, NoRetractions: true, Events: evs}
 	return t
+}
+
+func isScalar(t octosql.Type) bool {
+	switch t.TypeID {
+	case tInt, tFloat, tBool, tString, tTime, tDur:
+		return true
+	}
+	return false
+}
+
+// unionVariants: for every plain call, one more expression per argument in which that argument is
+// the union twin of its column.
+func unionVariants(exprs []sqlExpr) []sqlExpr {
+	var out []sqlExpr
+	for _, ex := range exprs {
+		if ex.fn == "" {
+			continue
+		}
+		for k, col := range ex.cols {
+			hasTwin := false
+			for _, cdef := range columns {
+				if cdef.name == col && isScalar(cdef.typ) {
+					hasTwin = true
+				}
+			}
+			if !hasTwin {
+				continue
+			}
+			v := ex
+			v.cols = append([]string{}, ex.cols...)
+			v.cols[k] = "u_" + col
+			v.sql = regexp.MustCompile(`\b`+col+`\b`).ReplaceAllString(ex.sql, "u_"+col)
+			for j := range v.cols {
+				if j != k && ex.cols[j] == col {
+					v.cols[j] = "u_" + col
+				}
+			}
+			out = append(out, v)
+		}
+	}
+	return out
 }
 
 // ---------------------------------------------------------------------------------------------
@@ -448,6 +516,7 @@ func sqlExprs() []sqlExpr {
 		},
 	}
 	exprs = append(exprs, tup)
+	exprs = append(exprs, unionVariants(exprs)...)
 	return exprs
 }
 
@@ -512,6 +581,10 @@ func (r *runner) sqlLeg() {
 				continue
 			}
 			outType := p.Schema.Fields[1].Type
+			if ex.fn != "" && ex.fn != "string" && t.nullable && octosql.Null.Is(outType) != octosql.TypeRelationIs {
+				c.Eval(1)
+				c.Violation("static-type-not-nullable:"+ex.fn, fmt.Sprintf("[sql] %s: a strict function over nullable arguments is typed %s, which does not admit the NULL it yields", q, outType), rep)
+			}
 			for _, out := range outs {
 				id := out.Record.Values[0].Int
 				if out.Record.Values[0].TypeID != tInt || id < 0 || id >= int64(len(t.rows)) {
